@@ -19,8 +19,11 @@ package drv
 //	          a sequence is a sequence of the enumeration, so every position is covered. The
 //	          operation executed alone is also held against the absolute C02 / C03 oracles (sent
 //	          equals received, designed locations, designed status).
-//	harness   loopback TCP (httptest.Server; net/http client and gorilla/websocket dialer), the
-//	          transport the generated client is written for: URL scheme and host matter there
+//	harness   real sockets (httptest.Server on a unix domain socket; net/http client and
+//	          gorilla/websocket dialer), the transport the generated client is written for: the URL
+//	          it builds is interpreted by net/http and gorilla, scheme included. A unix socket, not
+//	          a loopback TCP port, because one pair is mounted per sequence: tens of thousands of
+//	          listeners and connections a minute exhaust the ephemeral ports (TIME_WAIT)
 //
 // The observation of one operation is split into a request side (C02Q) and a response side
 // (C03Q); see OpObs.
@@ -594,7 +597,15 @@ func seqChildMain(specfile, design, service, seq string) {
 		out.Herr = "mount: " + err.Error()
 		return
 	}
-	ss, err := MountStreaming(s)
+	// the server listens on a unix domain socket: one mount per sequence, tens of thousands of
+	// sequences a minute would otherwise exhaust the loopback ports (sockets in TIME_WAIT)
+	sockDir, err := os.MkdirTemp("", "opseq-")
+	if err != nil {
+		out.Herr = "socket directory: " + err.Error()
+		return
+	}
+	defer os.RemoveAll(sockDir)
+	ss, err := MountStreamingUnix(s, sockDir)
 	if err != nil {
 		out.Herr = "mount on sockets: " + err.Error()
 		return
